@@ -506,6 +506,20 @@ func (sc *SpecScope) call(x *ast.CallExpr) Val {
 			return vBool(sx(">=", v.S, base))
 		}
 		return sc.fail("fresh of non-reference")
+	case "isold":
+		// allocated before the state in which the clause is evaluated (requires: before the call)
+		v := sc.eval(arg(0))
+		bound := "alloc0"
+		if sc.cur != nil {
+			bound = sc.cur.alloc
+		}
+		switch v.K {
+		case KSlice:
+			return vBool(sx("<", v.ref(), bound))
+		case KPtr:
+			return vBool(sx("<", v.S, bound))
+		}
+		return sc.fail("isold of non-reference")
 	case "unchanged":
 		// unchanged(s): every element of slice s reads the same now as in the old state
 		v := sc.eval(arg(0))
@@ -946,31 +960,52 @@ func (c *FnCtx) constVal(v constant.Value, t types.Type) Val {
 }
 
 // offsetOf finds the slice offset OFF when every index sum mentioning bv has the form
-// (+ OFF bv) or (+ OFF (+ bv c)) with the same atomic OFF.
+// (+ OFF bv) or (+ OFF (+ bv c)) with the same OFF (an atom or a parenthesised term not
+// mentioning bv).
 func offsetOf(body, bv string) string {
 	off := ""
-	rest := body
-	for {
-		i := strings.Index(rest, bv)
-		if i < 0 {
-			break
+	for i := 0; i+3 < len(body); i++ {
+		if !strings.HasPrefix(body[i:], "(+ ") {
+			continue
 		}
-		// look backwards for "(+ ATOM " or "(+ ATOM (+ "
-		pre := rest[:i]
-		pre = strings.TrimSuffix(pre, "(+ ")
-		if j := strings.LastIndex(pre, "(+ "); j >= 0 && !strings.ContainsAny(pre[j+3:], "()") {
-			atom := strings.TrimSpace(pre[j+3:])
-			if atom != "" && !strings.Contains(atom, " ") && atom != "0" {
-				if _, err := strconv.Atoi(atom); err != nil {
-					if off == "" {
-						off = atom
-					} else if off != atom {
-						return ""
+		// first operand
+		j := i + 3
+		start := j
+		if body[j] == '(' {
+			d := 0
+			for ; j < len(body); j++ {
+				if body[j] == '(' {
+					d++
+				} else if body[j] == ')' {
+					d--
+					if d == 0 {
+						j++
+						break
 					}
 				}
 			}
+		} else {
+			for j < len(body) && body[j] != ' ' && body[j] != ')' {
+				j++
+			}
 		}
-		rest = rest[i+len(bv):]
+		if j >= len(body) || body[j] != ' ' {
+			continue
+		}
+		x := body[start:j]
+		rest := body[j+1:]
+		if !(strings.HasPrefix(rest, bv+")") || strings.HasPrefix(rest, "(+ "+bv+" ") || strings.HasPrefix(rest, "(- "+bv+" ")) {
+			continue
+		}
+		if strings.Contains(x, bv) || x == "0" {
+			continue
+		}
+		if _, err := strconv.Atoi(x); err == nil {
+			continue
+		}
+		if off == "" {
+			off = x // the first indexed slice decides (its reads become H(ref, j), a plain trigger)
+		}
 	}
 	return off
 }
